@@ -60,15 +60,39 @@ type MPTConfig struct {
 	InitVer int64       // version at which Init was built
 }
 
+// MHist is one history: optional start content (built silently through the
+// real Insert, in sorted order) followed by operations.
+type MHist struct {
+	Init []json.RawMessage `json:"init"`
+	Ops  []MOp             `json:"ops"`
+}
+
 // RunMPTHistory executes one history on one configuration and emits its trace.
-func RunMPTHistory(w *tr.Writer, in *tr.Interner, st *MPTStats, tid int, cfg MPTConfig, ops []MOp, shapeEvery int) {
+func RunMPTHistory(w *tr.Writer, in *tr.Interner, st *MPTStats, tid int, cfgIdx int, cfg MPTConfig, h MHist, shapeEvery int) {
+	ops := h.Ops
 	w.NextTrace()
 	st.Traces++
 	env := NewTrieEnv(cfg.Store, cfg.Version)
 	defer env.Close()
 	chk := true
 	var initItems []bridge.Item
-	if len(cfg.Init) > 0 && env.Lower != nil {
+	if len(h.Init) > 0 {
+		for _, raw := range h.Init {
+			var pair []json.RawMessage
+			var p []string
+			var v string
+			if json.Unmarshal(raw, &pair) != nil || len(pair) != 2 || json.Unmarshal(pair[0], &p) != nil || json.Unmarshal(pair[1], &v) != nil {
+				panic("bad init pair " + string(raw))
+			}
+			initItems = append(initItems, bridge.Item{Path: joinChars(p), Value: ValBytes(v)})
+		}
+		sort.Slice(initItems, func(i, j int) bool { return bytes.Compare(initItems[i].Path, initItems[j].Path) < 0 })
+		for _, it := range initItems {
+			if _, err := env.Trie.Insert(util.Path(append([]byte(nil), it.Path...)), Val(it.Value)); err != nil {
+				panic(err)
+			}
+		}
+	} else if len(cfg.Init) > 0 && env.Lower != nil {
 		// build the pre-existing content directly on the lower store
 		lt := util.NewMerklePatriciaTrie(env.Lower, util.Sequence(cfg.InitVer), nil, NewTxnCache())
 		for _, kv := range cfg.Init {
@@ -123,13 +147,16 @@ func RunMPTHistory(w *tr.Writer, in *tr.Interner, st *MPTStats, tid int, cfg MPT
 		st.Contents[k] = true
 		if chk && ires == "ok" {
 			g := cfgClass + "|" + k
+			if len(items) == 0 {
+				g = "any|" // the empty trie has the nil root at every version
+			}
 			if st.RootGroups[g] == nil {
 				st.RootGroups[g] = map[int]bool{}
 			}
 			st.RootGroups[g][in.ID(root)] = true
 		}
 	}
-	ev := map[string]any{"tid": tid, "op": "reset", "store": cfg.Store, "ver": cfg.Version, "init": ItemsJSON(initItems)}
+	ev := map[string]any{"tid": tid, "op": "reset", "cfg": cfgIdx, "store": cfg.Store, "ver": cfg.Version, "init": ItemsJSON(initItems)}
 	observe(ev, nil, true)
 	w.Emit(ev)
 	st.Events++
@@ -246,14 +273,15 @@ func EmitRootGroups(w *tr.Writer, st *MPTStats, shard int) {
 	w.EmitTo(shard, map[string]any{"tid": 0, "op": "rootgroups", "groups": groups})
 }
 
-// ReadHistories reads TLC-generated histories (one JSON array per line).
-func ReadHistories(path string) ([][]MOp, error) {
+// ReadHistories reads TLC-generated histories (one JSON value per line:
+// either an array of operations or {"init":[[path,val]...],"ops":[...]}).
+func ReadHistories(path string) ([]MHist, error) {
 	f, err := os.Open(path)
 	if err != nil {
 		return nil, err
 	}
 	defer f.Close()
-	var out [][]MOp
+	var out []MHist
 	sc := bufio.NewScanner(f)
 	sc.Buffer(make([]byte, 1<<20), 1<<26)
 	for sc.Scan() {
@@ -261,8 +289,12 @@ func ReadHistories(path string) ([][]MOp, error) {
 		if len(line) == 0 {
 			continue
 		}
-		var h []MOp
-		if err := json.Unmarshal(line, &h); err != nil {
+		var h MHist
+		if line[0] == '[' {
+			if err := json.Unmarshal(line, &h.Ops); err != nil {
+				return nil, fmt.Errorf("bad history line: %v", err)
+			}
+		} else if err := json.Unmarshal(line, &h); err != nil {
 			return nil, fmt.Errorf("bad history line: %v", err)
 		}
 		out = append(out, h)
@@ -320,8 +352,10 @@ func GenMPTHistory(r *rand.Rand, maxOps int) []MOp {
 			op.Op = "insEmpty"
 		case x < 97:
 			op.Op = "insNil"
-		default:
+		case x < 99:
 			op.Op = "get"
+		default:
+			op.Op = "insBig"
 		}
 		ops = append(ops, op)
 	}
